@@ -223,8 +223,19 @@ def values_at(P, fn, target_ev, expr, env0, max_states=5000):
     seen = set()
     work = [(fn.entry, dict(env0))]
     n = 0
+    visits = {}
+    first_env = {}
     while work:
         b, env = work.pop()
+        # widening: after a few visits of a block, variables that keep changing become unknown
+        visits[b.id] = visits.get(b.id, 0) + 1
+        if b.id not in first_env:
+            first_env[b.id] = dict(env)
+        elif visits[b.id] > 3:
+            fe = first_env[b.id]
+            for k_ in list(env):
+                if fe.get(k_) != env[k_]:
+                    env.pop(k_)
         key = (b.id, tuple(sorted(env.items())))
         if key in seen:
             continue
